@@ -16,7 +16,7 @@ def run(ctx):
 
     def harness(n, seed, tag, race):
         recs, hok, log = ctx.go_harness(PKG, FILES, "TestVerifSess$", n=n, seed=seed, tag=tag, race=race,
-                                        env={"VERIF_PAR": "8" if thorough else "4"}, timeout=1500)
+                                        env={"VERIF_PAR": "8" if thorough else "4"}, timeout=900 if thorough else 240)
         cases, st = ctx.handle_records(recs)
         for k, v in st.items():
             stats[k] = stats.get(k, 0) + v
@@ -51,7 +51,9 @@ def run(ctx):
         hard = any(not k.endswith("(pipe-idle-check-by-timing)") for k in skipped)
         need = [k for k in need if not k.startswith("step:") or k == "step:backoff"]
         if hard and any(k.split(":", 1)[1] in ("advertised", "conn", "mu", "nextHop", "peerFBASNSupport") for k in skipped):
-            need = [k for k in need if not k.startswith("sess:set-during-write")]
+            pipe_counters = ("sess:set-during-write", "sess:pipe-fault-reconnect", "sess:write-failure-at-the-withdraw",
+                             "sess:set-of-advertised-after-other-request", "sess:invalid-set-while-request-pending")
+            need = [k for k in need if not k.startswith(pipe_counters)]
         ctx.cov["whitebox_skipped"] = skipped
         ctx.assumptions.append("white-box step comparisons skipped on this tree (session fields not in the known representation): %s" % sorted(skipped))
     # a counter that is zero BECAUSE the implementation misbehaves must not mask the finding:
